@@ -330,6 +330,16 @@ REF_PROGRAMS = {
         "flow main\n  start Act1Action() as $a\n  start Act1Action() as $b\n  match ${W}.Started()\n  send Marker()\n  match Never()\n",
         2,
     ),
+    # a bare action event statement (no reference object): the instance is named by the written parameter action_uid
+    # (docs: working-with-actions, `match UtteranceBotActionFinished(action_uid=$event_ref.action_uid)`)
+    "bare-action-event-by-uid": (
+        "flow main\n  start Act1Action() as $a\n  start Act1Action() as $b\n  match Act1ActionFinished(action_uid=${W}.uid)\n  send Marker()\n  match Never()\n",
+        2,
+    ),
+    "bare-action-event-by-uid-started": (
+        "flow main\n  start Act1Action() as $a\n  start Act1Action() as $b\n  match Act1ActionStarted(action_uid=${W}.uid)\n  send Marker()\n  match Never()\n",
+        2,
+    ),
     "flow-ref": (
         "flow c $n\n  match E(n=$n)\n\nflow main\n  start c 1 as $a\n  start c 2 as $b\n  match ${W}.Finished()\n  send Marker()\n  match Never()\n",
         0,
